@@ -24,7 +24,7 @@ with open(os.path.join(V, 'seeded', 'README.md'), 'w') as f:
             'and the outcome of `VERIF_REPO=<patched tree> ./check <property> --tier quick`).\n\n'
             'Layers: *proof/translation* = a regenerated definition changed and an obligation no longer checks; *correspondence* = extracted model and '
             'implementation disagree; *search* = a property oracle found a concrete failing input (the replay).\n\n')
-    f.write('Variants a, b: first round; c, d: second round (agents told what a, b were and asked for other mechanisms). *first run* is the outcome '
+    f.write('Variants a, b: first round; c, d: second round (agents told what a, b were and asked for other mechanisms); e, f: third round (told about a-d, asked for what a reviewer would least expect). *first run* is the outcome '
             'when the seed first met the check; where it was not a catch by a concrete failing input, *strengthening* says what was added to the '
             'check afterwards (generators and oracles only - no check was loosened); the other columns are the current outcome.\n\n')
     f.write('| property | variant | change | 410 tests pass | demo ok | check | layers | violation kinds | first run | strengthening |\n|---|---|---|---|---|---|---|---|---|---|\n')
@@ -34,3 +34,26 @@ with open(os.path.join(V, 'seeded', 'README.md'), 'w') as f:
     caught = sum(1 for r in rows if r[5] == 'caught')
     f.write('\n%d of %d seeded changes are caught by the quick check of their property.\n' % (caught, n))
 print(open(os.path.join(V, 'seeded', 'README.md')).read()[-400:])
+
+# ---- benign refactorings
+brows = []
+for f in sorted(glob.glob(os.path.join(V, 'benign', '*', '*', 'result.json'))):
+    r = json.load(open(f))
+    c = r.get('checks', {}).get(r['property'], {})
+    brows.append((r['property'], r['variant'], (r.get('summary') or '')[:200].replace('|', '/').replace('\n', ' '),
+                  'yes' if r.get('tests_pass') else 'NO',
+                  'passes' if not c.get('caught') else ('VIOLATION with a failing input' if 'search' in c.get('layers', []) else 'broken tie (no-failing-input-found)'),
+                  ', '.join(c.get('layers', [])) or '-'))
+if brows:
+    with open(os.path.join(V, 'benign', 'README.md'), 'w') as f:
+        f.write('# Benign refactorings\n\nBehaviour-preserving rewrites of jaraco/cssutils written by independent sub-agents (property text and a scratch '
+                'worktree only), each with a differential `demo.py` whose digest is the same on both trees. A check should pass on them; when the rewrite '
+                'changes the shape of code that a fail-closed translator reads, the tie breaks and the check reports `VIOLATION ... no-failing-input-found` '
+                '(the protocol for a tie that no longer checks), never a violation with a failing input.\n\n')
+        f.write('| property | variant | rewrite | 410 tests pass | check | layers |\n|---|---|---|---|---|---|\n')
+        for r in brows:
+            f.write('| %s |\n' % ' | '.join(r))
+        f.write('\n%d of %d pass; %d break a tie; %d violations with a failing input.\n' % (
+            sum(1 for r in brows if r[4] == 'passes'), len(brows), sum(1 for r in brows if r[4].startswith('broken')),
+            sum(1 for r in brows if r[4].startswith('VIOLATION'))))
+    print(open(os.path.join(V, 'benign', 'README.md')).read()[-120:])
